@@ -39,6 +39,7 @@ package eth2wrap
 // the fallback group is consulted iff the primary round failed with an unavailability-class error.
 //@ func provide
 //@ props C19
+//@ assigns bestSelector.counts, bestSelector.start
 //@ ghost roundForks int
 //@ ghostcall forkjoin.New: roundForks = 0
 //@ ghostcall fork: roundForks = roundForks + 1
@@ -52,11 +53,13 @@ package eth2wrap
 //@ ensures ncalls(fork) == len(clients) + ite(ncalls(runForkJoin) == 2, len(fallbacks), 0)
 //@ loop 1 invariant ncalls(fork) == atentry(ncalls(fork)) + $i && roundForks == $i
 //@ loop 2 invariant roundForks == atentry(roundForks)
+//@ loop 2 invariant all(q, *bestSelector, q != bestSelector ==> q.counts == old(q.counts) && q.start == old(q.start))
 
 // submit is provide with the result dropped: the same primaries, fallbacks and selector, one provide round, and the
 // work function runs only inside it (so the fallback decision of provide applies to every submission).
 //@ func submit
 //@ props C19
+//@ assigns selector.counts, selector.start
 //@ callreq provide: a1 == ctx && a2 == clients && a3 == fallbacks && a6 == selector
 //@ ensures ncalls(provide) == 1 && ncalls(work) == 0
 
@@ -95,6 +98,7 @@ package eth2wrap
 
 //@ func (c *DutiesCache) storeOrAmendProposerDuties
 //@ props C20
+//@ assigns c.proposerDuties
 //@ atomic
 //@ ensures !has(old(c.proposerDuties.duties), epoch) ==> r1 && c.proposerDuties.duties[epoch] == dutiesForEpoch.duties && c.proposerDuties.requestedIdxs[epoch] == dutiesForEpoch.requestedIdxs && c.proposerDuties.metadata[epoch] == dutiesForEpoch.metadata
 //@ ensures has(old(c.proposerDuties.duties), epoch) ==> forall(a, 0, len(old(c.proposerDuties.duties)[epoch]), c.proposerDuties.duties[epoch][a] == old(c.proposerDuties.duties)[epoch][a]) && len(c.proposerDuties.duties[epoch]) >= len(old(c.proposerDuties.duties)[epoch])
@@ -111,6 +115,7 @@ package eth2wrap
 
 //@ func (c *DutiesCache) trimBeforeProposerDuties
 //@ props C20
+//@ assigns c.proposerDuties
 //@ atomic
 //@ ensures forallk(k, c.proposerDuties.duties, k >= epoch && has(old(c.proposerDuties.duties), k) && c.proposerDuties.duties[k] == old(c.proposerDuties.duties)[k])
 //@ ensures forallk(k, old(c.proposerDuties.duties), k >= epoch ==> has(c.proposerDuties.duties, k))
@@ -126,6 +131,7 @@ package eth2wrap
 
 //@ func (c *DutiesCache) trimAfterProposerDuties
 //@ props C20
+//@ assigns c.proposerDuties
 //@ atomic
 //@ ensures forallk(k, c.proposerDuties.duties, k <= epoch && has(old(c.proposerDuties.duties), k) && c.proposerDuties.duties[k] == old(c.proposerDuties.duties)[k])
 //@ ensures forallk(k, old(c.proposerDuties.duties), k <= epoch ==> has(c.proposerDuties.duties, k))
@@ -148,6 +154,7 @@ package eth2wrap
 
 //@ func (c *DutiesCache) storeOrAmendAttesterDuties
 //@ props C20
+//@ assigns c.attesterDuties
 //@ atomic
 //@ ensures !has(old(c.attesterDuties.duties), epoch) ==> r1 && c.attesterDuties.duties[epoch] == dutiesForEpoch.duties && c.attesterDuties.requestedIdxs[epoch] == dutiesForEpoch.requestedIdxs && c.attesterDuties.metadata[epoch] == dutiesForEpoch.metadata
 //@ ensures has(old(c.attesterDuties.duties), epoch) ==> forall(a, 0, len(old(c.attesterDuties.duties)[epoch]), c.attesterDuties.duties[epoch][a] == old(c.attesterDuties.duties)[epoch][a]) && len(c.attesterDuties.duties[epoch]) >= len(old(c.attesterDuties.duties)[epoch])
@@ -164,6 +171,7 @@ package eth2wrap
 
 //@ func (c *DutiesCache) trimBeforeAttesterDuties
 //@ props C20
+//@ assigns c.attesterDuties
 //@ atomic
 //@ ensures forallk(k, c.attesterDuties.duties, k >= epoch && has(old(c.attesterDuties.duties), k) && c.attesterDuties.duties[k] == old(c.attesterDuties.duties)[k])
 //@ ensures forallk(k, old(c.attesterDuties.duties), k >= epoch ==> has(c.attesterDuties.duties, k))
@@ -179,6 +187,7 @@ package eth2wrap
 
 //@ func (c *DutiesCache) trimAfterAttesterDuties
 //@ props C20
+//@ assigns c.attesterDuties
 //@ atomic
 //@ ensures forallk(k, c.attesterDuties.duties, k <= epoch && has(old(c.attesterDuties.duties), k) && c.attesterDuties.duties[k] == old(c.attesterDuties.duties)[k])
 //@ ensures forallk(k, old(c.attesterDuties.duties), k <= epoch ==> has(c.attesterDuties.duties, k))
@@ -201,6 +210,7 @@ package eth2wrap
 
 //@ func (c *DutiesCache) storeOrAmendSyncDuties
 //@ props C20
+//@ assigns c.syncDuties
 //@ atomic
 //@ ensures !has(old(c.syncDuties.duties), epoch) ==> r1 && c.syncDuties.duties[epoch] == dutiesForEpoch.duties && c.syncDuties.requestedIdxs[epoch] == dutiesForEpoch.requestedIdxs && c.syncDuties.metadata[epoch] == dutiesForEpoch.metadata
 //@ ensures has(old(c.syncDuties.duties), epoch) ==> forall(a, 0, len(old(c.syncDuties.duties)[epoch]), c.syncDuties.duties[epoch][a] == old(c.syncDuties.duties)[epoch][a]) && len(c.syncDuties.duties[epoch]) >= len(old(c.syncDuties.duties)[epoch])
@@ -217,6 +227,7 @@ package eth2wrap
 
 //@ func (c *DutiesCache) trimBeforeSyncDuties
 //@ props C20
+//@ assigns c.syncDuties
 //@ atomic
 //@ ensures forallk(k, c.syncDuties.duties, k >= epoch && has(old(c.syncDuties.duties), k) && c.syncDuties.duties[k] == old(c.syncDuties.duties)[k])
 //@ ensures forallk(k, old(c.syncDuties.duties), k >= epoch ==> has(c.syncDuties.duties, k))
@@ -232,6 +243,7 @@ package eth2wrap
 
 //@ func (c *DutiesCache) trimAfterSyncDuties
 //@ props C20
+//@ assigns c.syncDuties
 //@ atomic
 //@ ensures forallk(k, c.syncDuties.duties, k <= epoch && has(old(c.syncDuties.duties), k) && c.syncDuties.duties[k] == old(c.syncDuties.duties)[k])
 //@ ensures forallk(k, old(c.syncDuties.duties), k <= epoch ==> has(c.syncDuties.duties, k))
